@@ -162,7 +162,7 @@ def gen_session(rng, tier, profile="mixed"):
         flags &= ~(F_LEGACY_SSL | F_MANDATORY_TLS)
     ctype = rng.choice(["c"] * 8 + ["k", "r"])
     jid = rng.choice(["user@example.org/res", "user@example.org", "example.org", "u@example.org/",
-                      "a,b=c@example.org/r"])
+                      "a,b=c@example.org/r"] * 4 + ["user@", "user@.example.org/r", "@/r", "."])
     if ctype == "k":
         jid = "comp.example.org"
     pw = rng.choice(["secret", "secret", "secret", "", None])
